@@ -23,6 +23,7 @@ type vBucket struct {
 type vDB struct {
 	root     *vBucket
 	readOnly bool
+	writes   int
 	// VerifFailCommit makes the next Update/Batch fail at commit (rolled back)
 }
 
@@ -55,6 +56,16 @@ func VerifNewModelDB() *DB {
 	db := &DB{}
 	verifDBs[db] = &vDB{root: &vBucket{}}
 	return db
+}
+
+// VerifWrites returns the number of mutating calls (Put/Delete/bucket creation
+// and deletion) the model database has executed, committed or not.
+func VerifWrites(db *DB) int { return verifDBs[db].writes }
+
+func noteWrite(tx *Tx) {
+	if vt := verifTxs[tx]; vt != nil {
+		vt.db.writes++
+	}
 }
 
 // VerifSetReadOnly makes Update/Batch on the model DB fail like a read-only database.
@@ -263,6 +274,7 @@ func (b *Bucket) CreateBucket(key []byte) (*Bucket, error) {
 			return nil, berrors.ErrIncompatibleValue
 		}
 		nb := &vBucket{}
+		noteWrite(ref.tx)
 		ref.vb.insert(i, clonedBytes(key), nil, nb)
 		return newBktRef(nb, ref.tx), nil
 	}
@@ -294,6 +306,7 @@ func (b *Bucket) DeleteBucket(key []byte) error {
 		if ref.vb.subs[i] == nil {
 			return berrors.ErrIncompatibleValue
 		}
+		noteWrite(ref.tx)
 		ref.vb.remove(i)
 		return nil
 	}
@@ -320,6 +333,7 @@ func (b *Bucket) Put(key []byte, value []byte) error {
 		}
 		i, ok := ref.vb.find(key)
 		v := clonedBytes(value)
+		noteWrite(ref.tx)
 		if ok {
 			if ref.vb.subs[i] != nil {
 				return berrors.ErrIncompatibleValue
@@ -345,6 +359,7 @@ func (b *Bucket) Delete(key []byte) error {
 		if ref.vb.subs[i] != nil {
 			return berrors.ErrIncompatibleValue
 		}
+		noteWrite(ref.tx)
 		ref.vb.remove(i)
 		return nil
 	}
@@ -461,6 +476,7 @@ func (c *Cursor) Delete() error {
 		if vc.ref.vb.subs[i] != nil {
 			return berrors.ErrIncompatibleValue
 		}
+		noteWrite(vc.ref.tx)
 		vc.ref.vb.remove(i)
 		return nil
 	}
